@@ -44,6 +44,7 @@ type flowParams struct {
 	PointOnly    []string            `json:"point_only"`     // preemptive part: sweep only points of these files
 	LateOpen     []string            `json:"late_open"`      // destinations whose Open gate sorts last (stays pending by default)
 	LateCommit   bool                `json:"late_commit"`    // store commits stay in flight until nothing else can run (exploration order)
+	ChunkAcks    bool                `json:"chunk_acks"`     // forced destination answers (Reject) arrive one response per record
 	AckScript    []string            `json:"ack_script"`     // forced answer of the k-th ack request of every destination (input script, not a choice)
 	IdleBatches  []int               `json:"idle_batches"`   // source batches whose first read waits until no timer is left (quiet period)
 	LatePut      bool                `json:"late_put"`       // non-transactional store writes (pipeline status) stay in flight until nothing else can run
@@ -97,6 +98,9 @@ func (p flowParams) name() string {
 	}
 	if p.LatePut {
 		n += "/lateput"
+	}
+	if p.ChunkAcks {
+		n += "/chunkacks"
 	}
 	if len(p.AckScript) > 0 {
 		n += "/ackscript=" + strings.Join(p.AckScript, ",")
@@ -196,6 +200,7 @@ func (p flowParams) topology() stack.Topology {
 			}
 		}
 		if p.Reject != nil {
+			ds.ChunkAcks = p.ChunkAcks
 			ds.Reject = map[string]bool{}
 			for _, k := range p.Reject[ds.Name] {
 				ds.Reject[k] = true
@@ -500,6 +505,12 @@ func kindName(k string) string {
 		return "split3"
 	case "s":
 		return "shortonce"
+	case "m":
+		return "fmid"
+	case "E":
+		return "errshort"
+	case "1":
+		return "multi1pos"
 	}
 	return k
 }
